@@ -208,7 +208,8 @@ CodeIter(d, f) == CodeIterFrom(d, 1, f)
 (* ------------------------------ block writer ------------------------------ *)
 (* blockWriter: elements + data length + restart offsets + descriptor bitmap *)
 EmptyBW(id)    == [id |-> id, elems |-> <<>>, dlen |-> 0, restarts |-> <<>>, bm |-> {}]
-LoadBW(id, es) == [id |-> id, elems |-> es, dlen |-> DataLen(es), restarts |-> RestartsOf(es), bm |-> BitsOf(es)]
+LoadBW(id, es) == [id |-> id, elems |-> es, dlen |-> DataLen(es), restarts |-> RestartsOf(es),
+                   bm |-> IF HasExt THEN BitsOf(es) ELSE {}]
 BWDesc(b)      == DescOf(b.id, b.elems, b.bm)
 BWLast(b)      == IF b.elems = <<>> THEN 0 ELSE Last(b.elems).id
 
@@ -229,7 +230,7 @@ BWPop(b) ==        \* remove the last element (caller guarantees non-empty)
                     !.dlen = IF n % RestartLen = 1 THEN Last(b.restarts)    \* the section becomes empty
                              ELSE @ - ElemLen(EncVal(b.elems, n), Last(b.elems).ext),
                     !.restarts = IF n % RestartLen = 1 THEN Front(@) ELSE @,
-                    !.bm = BitsOf(rest)]                                      \* rebuildBitmap
+                    !.bm = IF HasExt THEN BitsOf(rest) ELSE {}]                  \* rebuildBitmap
 
 RECURSIVE BWTrim(_, _)     \* newBlockWriter(blob, desc, limit): pop everything above the limit
 BWTrim(b, limit) == IF b.elems # <<>> /\ BWLast(b) > limit THEN BWTrim(BWPop(b), limit) ELSE b
@@ -269,8 +270,22 @@ OpenWriter(limit)  == w.kind = "none" /\ w' = Open("writer", limit) /\ UNCHANGED
 OpenDeleter(limit) == w.kind = "none" /\ ~GapLimit(limit) /\ w' = Open("deleter", limit) /\ UNCHANGED <<db, abs>>
 Close              == w.kind # "none" /\ w' = NoSession /\ UNCHANGED <<db, abs>>     \* session abandoned
 
+(* sorted-set view of an open session: what a finish would leave in the index *)
+RECURSIVE ConcatBW(_)
+ConcatBW(bs) == IF bs = <<>> THEN <<>> ELSE Head(bs).elems \o ConcatBW(Tail(bs))
+RECURSIVE ConcatPrev(_, _)
+ConcatPrev(ds, blocks) == IF ds = <<>> THEN <<>> ELSE blocks[Head(ds).id] \o ConcatPrev(Tail(ds), blocks)
+(* prev descriptors of blocks frozen in this session are not yet in db.blocks *)
+PrevStored(s) == SubSeq(s.prev, 1, Len(s.prev) - Len(s.frozen))
+SessAbs(s)    == ConcatPrev(PrevStored(s), db.blocks) \o ConcatBW(s.frozen) \o s.bw.elems
+
 (* indexWriter.append: ids must ascend; rotate to a fresh block when the estimate says full *)
-AppendOK(id)  == w.kind = "writer" /\ id > w.lastID
+(* The environment appends ascending ids (property C19 quantifies over ascending appends). *)
+(* After a trim that empties the last retained block the writer's own lastID is 0, so it   *)
+(* would not reject an id below the earlier blocks' maximum; such calls are outside the    *)
+(* quantifier and are not generated (see NOTES.md, observation O2).                        *)
+Ascending(id) == LET a == SessAbs(w) IN IF a = <<>> THEN TRUE ELSE id > Last(a).id
+AppendOK(id)  == w.kind = "writer" /\ id > w.lastID /\ Ascending(id)
 Append1(s, id, ext) ==
   LET x   == SortIds(ext)
       rot == BWFull(s.bw, x)
@@ -280,15 +295,6 @@ Append1(s, id, ext) ==
   IN [s1 EXCEPT !.bw = BWAppend(@, id, x), !.lastID = id]
 WAppend(id, ext)     == AppendOK(id) /\ w' = Append1(w, id, ext) /\ UNCHANGED <<db, abs>>
 WAppendFail(id, ext) == w.kind = "writer" /\ id <= w.lastID /\ UNCHANGED vars
-
-(* sorted-set view of an open session: what a finish would leave in the index *)
-RECURSIVE ConcatBW(_)
-ConcatBW(bs) == IF bs = <<>> THEN <<>> ELSE Head(bs).elems \o ConcatBW(Tail(bs))
-RECURSIVE ConcatPrev(_, _)
-ConcatPrev(ds, blocks) == IF ds = <<>> THEN <<>> ELSE blocks[Head(ds).id] \o ConcatPrev(Tail(ds), blocks)
-(* prev descriptors of blocks frozen in this session are not yet in db.blocks *)
-PrevStored(s) == SubSeq(s.prev, 1, Len(s.prev) - Len(s.frozen))
-SessAbs(s)    == ConcatPrev(PrevStored(s), db.blocks) \o ConcatBW(s.frozen) \o s.bw.elems
 
 Put(blocks, id, es) == [i \in DOMAIN blocks \cup {id} |-> IF i = id THEN es ELSE blocks[i]]
 RECURSIVE PutAll(_, _)
